@@ -1947,9 +1947,10 @@ class FileBuilder:
             self._build_dirs.created_dirs() + cache_file_created_dirs)
         dirs_to_remove = set([os.path.normcase(dir_) for dir_ in created_dirs])
         dirs_to_remove.update(self._build_dirs.norm_cased_error_created_dirs())
-        for dir_ in self._old_cache.created_dirs():
-            dirs_to_remove.discard(os.path.normcase(dir_))
 
+        # This includes directories from the previous build that we recreated.
+        # If we kept them, we would be unable to remove their parents that we
+        # created. We recreate them below if possible.
         for filename in self._new_cache.created_files():
             # Files from the previous build that we reused are left in place.
             # Files from the previous build that we rebuilt are removed; if
